@@ -59,7 +59,7 @@ def _worker(job):
                    models_used=sorted(r.models_used), trusted=list(getattr(c, "trusted", [])),
                    contracts_used=sorted(r.contracts_used), obligations={}, samples=[], regions=carved)
         for name, ob in r.obligations.items():
-            o = dict(status=ob["status"], kind=ob["kind"], queries=ob["queries"], time=round(ob["time"], 4), backends=ob.get("backends", {}),
+            o = dict(status=ob["status"], kind=ob["kind"], imprecise=ob.get("imprecise", False), queries=ob["queries"], time=round(ob["time"], 4), backends=ob.get("backends", {}),
                      detail=ob["detail"][:2000], unknown=ob["unknown_reasons"][:2], replays=[])
             if ob["status"] == "sat" and kind != "canary":
                 for m in ob["models"]:
@@ -85,6 +85,54 @@ def _worker(job):
         return dict(target=f"{modname}[{index}]", label=f"{modname}[{index}]", module=modname, kind=kind,
                     error="worker crashed: " + traceback.format_exc()[-3000:], obligations={}, samples=[], paths=0, post_paths=0,
                     unsupported=[], time=0, hashes={}, models_used=[], trusted=[], contracts_used=[], wall=time.time() - t0)
+
+
+def _child(job, path):
+    out = _worker(job)
+    with open(path, "w") as f:
+        json.dump(out, f, default=str)
+
+
+def run_jobs(jobs, n, job_timeout):
+    """one forked process per contract (a solver crash or hang in one job cannot take the others down)"""
+    import tempfile
+    ctxm = mp.get_context("fork")
+    tmpdir = tempfile.mkdtemp(prefix="pyvc_jobs_")
+    pending = list(enumerate(jobs))
+    running, results = {}, {}
+    while pending or running:
+        while pending and len(running) < n:
+            i, job = pending.pop(0)
+            path = os.path.join(tmpdir, f"{i}.json")
+            p = ctxm.Process(target=_child, args=(job, path))
+            p.start()
+            running[i] = (p, job, path, time.time())
+        time.sleep(0.05)
+        for i in list(running):
+            p, job, path, t0 = running[i]
+            if p.is_alive() and time.time() - t0 < job_timeout:
+                continue
+            if p.is_alive():
+                p.kill()
+                p.join()
+                results[i] = _crash(job, f"job exceeded {job_timeout}s and was killed")
+            else:
+                p.join()
+                try:
+                    results[i] = json.load(open(path))
+                except Exception:   # noqa
+                    results[i] = _crash(job, f"worker process died (exit code {p.exitcode}) - solver crash?")
+            del running[i]
+    import shutil
+    shutil.rmtree(tmpdir, ignore_errors=True)
+    return [results[i] for i in sorted(results)]
+
+
+def _crash(job, msg):
+    pid, modname, index, tier, kind = job
+    return dict(target=f"{modname}[{index}]", label=f"{modname}[{index}]", module=modname, kind=kind, error=msg, obligations={},
+                samples=[], paths=0, post_paths=0, unsupported=[], time=0, hashes={}, models_used=[], trusted=[],
+                contracts_used=[], wall=0, regions=[])
 
 
 def load_findings():
@@ -126,12 +174,7 @@ def main(argv=None):
         for i, c in enumerate(getattr(mod, "CANARIES", [])):
             if pid in c.props and not args.only:
                 jobs.append((pid, modname, i, tier, "canary"))
-    ctxm = mp.get_context("fork")
-    if args.jobs > 1 and len(jobs) > 1:
-        with ctxm.Pool(min(args.jobs, len(jobs))) as pool:
-            results = pool.map(_worker, jobs, chunksize=1)
-    else:
-        results = [_worker(j) for j in jobs]
+    results = run_jobs(jobs, max(1, args.jobs), 900 if tier == "quick" else 3600)
 
     findings = [f for f in load_findings() if f.get("property") == pid and f.get("status", "open") == "open"]
     import shutil
@@ -201,6 +244,10 @@ def main(argv=None):
                 continue
             # sat: counter-model. replayed?
             confirmed = next((rp for rp in o["replays"] if rp.get("failed")), None)
+            if confirmed is None and o.get("imprecise"):
+                # every failing path went through a loop cut without invariant (over-approximation): not a verdict
+                undecided.append(f"{full}: fails only on paths through a loop without invariant and no replay confirms it")
+                continue
             kf = match_finding(findings, r["target"], name, confirmed, o)
             if kf is not None:
                 matched_findings.add(kf["id"])
